@@ -88,7 +88,7 @@ type world struct {
 	paging   string // token | reject | ignore
 	defmax   int
 	emptyerr bool
-	sqlBased bool                                // some layer is sqlbackend
+	sqlBased bool                                    // some layer is sqlbackend
 	peek     func(name string) ([]byte, bool, error) // shadow's own store, nil unless shadowbackend
 	junk     bool
 	cleanups []func()
@@ -372,7 +372,7 @@ func (r *rec) list(p int, pg bool, max int, tin int) int {
 }
 
 func run(c *eng.Ctx) error {
-	n := c.N(160, 2000)
+	n := c.N(160, 1200)
 	debug := os.Getenv("C37_DEBUG") != ""
 	c.Traces(n, func(t int, rng *rand.Rand) {
 		kind := kinds[t%len(kinds)]
